@@ -296,6 +296,8 @@ pub fn gen_c19_cases(rng: &mut Rng, count: usize, out_path: &str) {
         ("{'var': 'x'}", "{1: 0, 'x': 5}"), ("{'var': 'null'}", "{None: 'n', 'k': 1}"), ("{'var': 'true'}", "{True: 1, 'a': 2}"), ("{'var': '1.5'}", "{1.5: 'f', 'b': 0}"),
         ("{'map': [{'var': 'rows'}, {'var': '7'}]}", "{'rows': [{7: 'seven', 'id': 1}]}"), ("{'merge': [{'var': ''}, (1, 2)]}", "(3, (4,))"), ("{'a': 1, 2: 'b'}", "None"),
         ("{'var': 'k'}", "{'k': '\\ud83d\\ude00'}"), ("{'cat': ['\\ud83d\\ude00', {'var': ''}]}", "'\\ud83d\\ude00!'"), ("{'var': '\\ud83d\\ude00'}", "{'\\ud83d\\ude00': 1}"),
+        ("{'if': [{'var': 'reading.ok'}, {'var': 'reading.temp'}, 'n/a']}", "{'reading': {'temp': float('nan'), 'ok': True}, 'history': [1.5, float('inf')]}"),
+        ("{'<': [{'var': 'x'}, float('inf')]}", "{'x': 1}"), ("{'var': 'a'}", "{'a': [float('-inf')]}"),
         ("{'var': ('x',)}", "{'x': (1, 2)}"), ("{'in': [2, (1, 2, 3)]}", "None"), ("{'cat': [{'var': '0'}, {'var': '-1'}]}", "{0: 'zero', -1: 'minus', 'z': 1}"),
     ] {
         for ser in ["default", "compact"] {
